@@ -16,7 +16,7 @@ func init() {
 	register(&core.Rule{ID: "GOB-FRESH", Props: []string{"C05", "C06", "C12", "C13"}, Floor: 8,
 		Doc: "a gob Decode inside a loop decodes into a variable declared inside that loop (fresh per iteration): gob omits zero-valued fields on the wire and leaves the destination untouched, so a reused destination keeps the previous element's fields",
 		Run: runGobFresh})
-	register(&core.Rule{ID: "OPERAND-TRAVERSED", Props: []string{"C12"}, Floor: 4,
+	register(&core.Rule{ID: "OPERAND-TRAVERSED", Props: []string{"C12", "C13"}, Floor: 4,
 		Doc: "binary lattice operations look at all of their operands: every map component of Merge's argument, and both operands of the clock comparison, is iterated (or handed to a helper) on every path - directly or through a local alias of exactly that operand",
 		Run: runOperandTraversed})
 	register(&core.Rule{ID: "WRITE-UNCOND", Props: []string{"C12"}, Floor: 2,
